@@ -90,7 +90,7 @@ def make_twin(rep, N, D, body):
 
 
 def obligations(tier, seed):
-    obs = []
+    obs = fp_obligations(tier, seed)
     for k, (rep, N, D) in enumerate(instances(tier, seed)):
         ct = G.ctype(rep)
         pre, ws, tag = wrappers(rep, N, D)
@@ -106,4 +106,40 @@ def obligations(tier, seed):
                       contract='forall x:%s. will_conversion_overflow == (x*%d outside range(P) or x*%d/%d outside range(T)); '
                                'will_conversion_truncate == (%d does not divide x*%d); is_conversion_lossy == disjunction' % (ct, N, N, D, D, N),
                       functions_under_contract=('au::will_conversion_overflow', 'au::will_conversion_truncate', 'au::is_conversion_lossy')))
+    return obs
+
+
+FP_FACTORS = [(1000, 1), (1, 1000), (1250, 381), (381, 1250), (3600, 1), (1, 12), (1000000000000, 1), (1 << 40, 3)]
+
+
+def fp_obligations(tier, seed):
+    """floating reps: overflow is reported for every finite value whose scaled magnitude exceeds the largest finite value
+    (contract: not reported ==> the product the conversion computes is finite) and never for values safely below it
+    (contract: reported ==> the computed product is not below max * (1 - 2^-20) resp. (1 - 2^-49))."""
+    obs = []
+    for rep, ct, fin, big in (('f32', 'float', 'VF_ISFINITE_F32', '(FLT_MAX * (1.0f - 0x1p-20f))'),
+                              ('f64', 'double', 'VF_ISFINITE_F64', '(DBL_MAX * (1.0 - 0x1p-49))')):
+        fs = FP_FACTORS if tier == 'thorough' else FP_FACTORS[:4]
+        for (N, D) in fs:
+            tag = '%s_%d_%d' % (rep, N, D)
+            pre, u1, u2 = G.unit_prelude('m', N, D)
+            mk = 'au::make_quantity<%s>(x)' % u1
+            wo = Wrapper('w_ovf_' + tag, 'bool', [(ct, 'x')], 'return au::will_conversion_overflow(%s, %s{});' % (mk, u2))
+            wt = Wrapper('w_trunc_' + tag, 'bool', [(ct, 'x')], 'return au::will_conversion_truncate(%s, %s{});' % (mk, u2))
+            wl = Wrapper('w_lossy_' + tag, 'bool', [(ct, 'x')], 'return au::is_conversion_lossy(%s, %s{});' % (mk, u2))
+            wc = Wrapper('w_conv_' + tag, ct, [(ct, 'x')], 'return %s.coerce_in(%s{});' % (mk, u2))
+            body = '''
+  ASSUME(%s(x));
+  bool o = %s(x), t = %s(x), l = %s(x);
+  %s p = %s(x);
+  CHECK(o || %s(p), "not-reported-implies-product-finite");
+  CHECK(!o || !(p <= %s && p >= -%s), "reported-only-near-or-beyond-the-limit");
+  CHECK(!t, "floating-reps-never-truncate-by-convention");
+  CHECK(l == (o || t), "lossy-is-disjunction");
+''' % (fin, wo.name, wt.name, wl.name, ct, wc.name, fin, big, big)
+            obs.append(Ob(id='C04.fp.%s' % tag, prop='C04', group='C04.%s' % rep, prelude=pre, wrappers=[wo, wt, wl, wc], inputs=[(ct, 'x')],
+                          body=body, fp=True,
+                          contract='forall finite %s x. !will_conversion_overflow ==> x*k (as computed by the conversion) is finite; '
+                                   'will_conversion_overflow ==> |x*k| is not below max*(1-2^-20 | 2^-49); is_conversion_lossy == disjunction' % ct,
+                          functions_under_contract=('au::will_conversion_overflow', 'au::detail::OverflowChecker::would_product_overflow')))
     return obs
